@@ -119,8 +119,8 @@ fn edge_code(form: usize, spelling: &str, target: Kind) -> String {
 fn module_source(file: &str, kind: Kind, edges: &[(usize, String, Kind)], entry: bool) -> String {
     if kind.is_data() {
         return match kind {
-            Kind::Json => format!("{{\"name\": \"{}\", \"list\": [1, 2, {{\"k\": null, \"end\": true}}], \"s\": \"x\\ny\"}}", file),
-            Kind::Yaml => format!("name: \"{}\"\nlist:\n  - 1\n  - two\n  - {{k: ~, 3: three}}\n", file),
+            Kind::Json => format!("{{\"name\": \"{}\", \"list\": [1, 2, {{\"k\": null, \"end\": true}}], \"holes\": [null, 20, null, 40, null], \"s\": \"x\\ny\"}}", file),
+            Kind::Yaml => format!("name: \"{}\"\nlist:\n  - 1\n  - two\n  - {{k: ~, 3: three}}\nholes:\n  - ~\n  - 20\n  - null\n  - 40\n", file),
             Kind::Toml => format!("name = \"{}\"\nlist = [1, 2]\n[sub]\nk = 1.5\n", file),
             _ => format!("text of {}\nsecond line", file),
         };
@@ -484,7 +484,15 @@ fn mode_menu() -> Vec<ModeCfg> {
 }
 
 fn layouts() -> Vec<[&'static str; 4]> {
-    vec![["src/main.lua", "src/a.lua", "src/b.lua", "src/c.lua"], ["src/main.luau", "src/a.luau", "src/lib/b.lua", "src/c/init.luau"]]
+    vec![
+        ["src/main.lua", "src/a.lua", "src/b.lua", "src/c.lua"],
+        ["src/main.luau", "src/a.luau", "src/lib/b.lua", "src/c/init.luau"],
+        // modules directly in the working directory, reached with `./` from there and with `../` from below
+        ["src/main.lua", "a.lua", "b.luau", "lib/c.lua"],
+        ["main.lua", "a.lua", "sub/b.lua", "c.lua"],
+        // a vendored copy: the path of one module ends with the whole path of another
+        ["src/main.lua", "src/vendor/src/c.lua", "src/b.lua", "src/c.lua"],
+    ]
 }
 
 fn data_file(kind: Kind) -> &'static str {
